@@ -19,7 +19,7 @@ pub(crate) mod cell {
     #[allow(dead_code)]
     impl<T> UnsafeCell<T> {
         #[inline(always)]
-        pub(crate) fn new(data: T) -> UnsafeCell<T> {
+        pub(crate) const fn new(data: T) -> UnsafeCell<T> {
             UnsafeCell(std::cell::UnsafeCell::new(data))
         }
         #[inline(always)]
